@@ -57,11 +57,13 @@ class Impl(object):
     def fresh(self):
         return getattr(self.mod, self.top)()
 
-    def execute(self, msg, op):
-        """Returns outcome name: 'ok' or the exception class name."""
+    def execute(self, msg, op, held=False):
+        """Returns outcome name: 'ok' or the exception class name.
+        held: the object the operation acts on is fetched first, then the whole message is read (str, encode, the same
+        path again) and only then the operation runs on the handle fetched before."""
         import prophy
         try:
-            self._execute(msg, op)
+            self._execute(msg, op, held)
         except prophy.ProphyError:
             return 'ProphyError'
         except Exception as e:      # noqa
@@ -92,11 +94,17 @@ class Impl(object):
                 t = [a for a in r.arms if a.name == step[1]][0].type
         return t
 
-    def _execute(self, msg, op):
+    def _execute(self, msg, op, held=False):
         path, name, args = op
         cur = self._nav(msg, path)
         if cur is None:
             raise AttributeError('absent')
+        if held and path:
+            for read in (lambda: str(msg), lambda: msg.encode('<'), lambda: self._nav(msg, path), lambda: len(cur)):
+                try:
+                    read()
+                except Exception:       # noqa  (reads of a state that does not encode are judged elsewhere)
+                    pass
         if name == 'set':
             setattr(cur, args[0], args[1])
         elif name == 'disc':
@@ -124,8 +132,14 @@ class Impl(object):
             items = vs.items if isinstance(vs, A.ItArg) else vs
             if not isinstance(items, tuple) and any(isinstance(x, (dict, list)) for x in items):
                 et = self._elem_type(path)
-                items = [T.build(self.ref, et, self.model.to_tree(et, x), getattr(self.mod, self._cls_name(et))())
-                         if isinstance(x, (dict, list)) else x for x in items]
+                built = {}      # equal elements are one object, as in the idiom a.extend([c] * 3)
+
+                def one(x):
+                    k = repr(x)
+                    if k not in built:
+                        built[k] = T.build(self.ref, et, self.model.to_tree(et, x), getattr(self.mod, self._cls_name(et))())
+                    return built[k]
+                items = [one(x) if isinstance(x, (dict, list)) else x for x in items]
                 vs = iter(items) if isinstance(vs, A.ItArg) else items
             elif isinstance(vs, A.ItArg):
                 vs = vs.make()
@@ -246,12 +260,14 @@ def explore_type(job):
                      if m.type != 'bytes')
         init = model.default(top)
         seen_viol = {}
+        cur_mode = [None]
 
         def viol(key, hist, op, detail):
             seen_viol[key] = seen_viol.get(key, 0) + 1
             art = None
             if seen_viol[key] <= 2:
                 art = {'zoo': name, 'schema': text, 'history': [A.op_text(o) for o in hist], 'op': A.op_text(op) if op else None,
+                       'mode': cur_mode[0],
                        'hist_ops': repr(hist), 'op_raw': repr(op), 'detail': detail}
             out['viol'].append((key, art))
 
@@ -337,9 +353,12 @@ def explore_type(job):
                     out['transitions'] += 1
                     hidden = None
                     nviol = len(out['viol'])
-                    for mode in ('sparse', 'dense'):
-                        msg = run_history(hist, mode)
-                        got = impl.execute(msg, op)
+                    for mode in ('sparse', 'dense', 'held'):
+                        if mode == 'held' and not op[0]:
+                            continue
+                        cur_mode[0] = mode
+                        msg = run_history(hist, 'sparse' if mode == 'held' else mode)
+                        got = impl.execute(msg, op, held=(mode == 'held'))
                         out['executions'] += 1
                         out['outcomes'][got] = out['outcomes'].get(got, 0) + 1
                         if got not in ACCEPT[outcome_m]:
